@@ -243,6 +243,7 @@ def r17_2(run):
     de = ix.func(TB + ".drop_elements_at_junctions")
     cs = [c for c in r.calls() if c.fn == ("f", de.qualname)]
     ok = len(cs) == 1 and cs[0].args[:2] == (("n", "net"), ("n", "junctions")) and not cs[0].kw \
+        and all(a_ == ("c", True) for a_ in cs[0].args[2:]) \
         and all(key(c) == key(("n", "drop_elements")) and p for c, p in cs[0].cond)
     run.ob("drop_junctions|cascade", ok,
            "drop_junctions cascades to all elements at the dropped junctions (unless drop_elements=False is requested)", w)
